@@ -166,7 +166,7 @@ def asan(pid, tier, seed, scale, wdir):
 def fuzz(pid, tier, seed, scale, wdir):
     """cargo-fuzz (libFuzzer + ASan) on /verif/fuzz targets; crashes/timeouts are violations with the artifact as replay."""
     res = {'leg': 'fuzz-asan', 'executions': 0, 'violations': [], 'inconclusive': None}
-    fdir = os.path.join(VERIF, 'fuzz')
+    fdir = os.path.join(VERIF, 'fuzz-crate')
     target = {'C06': 'add_and_render_str', 'C07': 'add_then_render'}.get(pid)
     if not target or not os.path.isdir(fdir):
         res['inconclusive'] = 'no fuzz target for %s' % pid
